@@ -41,6 +41,9 @@ pub struct Shared {
     pub received: Vec<u8>,
     pub read_polls: usize,
     pub write_polls: usize,
+    /// how many times the writer reported its failure (the first report IS the failure; a further one means that a write
+    /// was attempted on a stream whose write side had already failed)
+    pub write_failures: usize,
 }
 
 /// A reader that keeps polling after end of stream / a writer polled over and over without progress is a
@@ -136,7 +139,10 @@ impl AsyncWrite for ScriptStream {
                 me.sh.lock().unwrap().received.extend_from_slice(buf);
                 Poll::Ready(Ok(buf.len()))
             }
-            Some(WEv::Err) => Poll::Ready(Err(std::io::Error::new(std::io::ErrorKind::BrokenPipe, "broken pipe"))),
+            Some(WEv::Err) => {
+                me.sh.lock().unwrap().write_failures += 1;
+                Poll::Ready(Err(std::io::Error::new(std::io::ErrorKind::BrokenPipe, "broken pipe")))
+            }
             Some(WEv::Pending) => {
                 me.w.pop_front();
                 cx.waker().wake_by_ref();
@@ -162,7 +168,10 @@ impl AsyncWrite for ScriptStream {
                             me.sh.lock().unwrap().received.extend_from_slice(&buf[..n]);
                             return Poll::Ready(Ok(n));
                         }
-                        Some(WEv::Err) => return Poll::Ready(Err(std::io::Error::new(std::io::ErrorKind::BrokenPipe, "broken pipe"))),
+                        Some(WEv::Err) => {
+                            me.sh.lock().unwrap().write_failures += 1;
+                            return Poll::Ready(Err(std::io::Error::new(std::io::ErrorKind::BrokenPipe, "broken pipe")));
+                        }
                         _ => {
                             cx.waker().wake_by_ref();
                             return Poll::Pending;
@@ -412,5 +421,8 @@ pub fn serve(st: &State, t: &mut Toks) -> PResult<String> {
     let s = sh.lock().unwrap();
     hex(&mut o, &s.received);
     let _ = write!(o, " CONSUMED {}", s.consumed);
+    if s.write_failures > 1 {
+        let _ = write!(o, " WAFTER {}", s.write_failures - 1);
+    }
     Ok(o)
 }
